@@ -65,7 +65,7 @@ def run(ck):
     nc.report(ck, fails, [c for c in corr if "?" not in c[4]], what="CRT conversion")
     ck.assumptions = ["GMP functions modelled by their documented meaning on Z (mpz_fdiv_ui = floor residue, mpz_tdiv_q_2exp on non-negatives = floor shift, mpz_invert = inverse in [0,p))",
                       "extracted model compared for <= 12 moduli (bit-serial Z arithmetic); beyond that the real library is compared with the independent zarith CRT only"]
-    vf.run_deps(ck, ['C15'])
+    vf.run_deps(ck, ['C15', 'C01'])
     return ck.finish(trusted=["coqc 8.16.1 kernel", "extraction + driver.ml (zarith spec side: Z.invert-based CRT)", "h_crt.cpp harness, GMP", "translator"], extra_cov={"params_sha": info})
 
 def replay(ck, rec):
